@@ -364,6 +364,8 @@ def C12(rep, prog, tier):
         _run(rep, part.evaluated, ex, "inference.consistency_sat.consistency", "cond")
         _run(rep, part.evaluated_duplicates, ex, "inference.consistency_sat.consistency_indices", "key")
         _run(rep, part.evaluated_duplicates, ex, "inference.consistency_sat.consistency", "cond")
+        _run(rep, part.evaluated_second_call, ex, "inference.consistency_sat.consistency_indices", "key")
+        _run(rep, part.evaluated_second_call, ex, "inference.consistency_sat.consistency", "cond")
     finally:
         rep.only = None
 
